@@ -270,8 +270,9 @@ def currentBatch (svc : List BatchRec) (src : Sha) : Option BatchRec :=
   (svc.reverse.filter fun b => b.sourceSha == src).find? fun b => b.state != .cancelled
 
 /-- `PR._update_batch`; returns (pr, state_changed).
-`fix = false` is the code as it is: when the current batch is not complete, `build_state` is left as it was.
-`fix = true` is the candidate patch discussed in Props/C30.lean (an unfinished current batch resets `build_state` to None). -/
+`fix = true` is the code as it is (since commit aefc231fb): an unfinished current batch resets `build_state` to None
+(`else: self.set_build_state(None)`).
+`fix = false` is the code BEFORE that commit: when the current batch was not complete, `build_state` was left as it was. -/
 def PR.updateBatch (fix : Bool) (p : PR) (svc : List BatchRec) : PR × Bool :=
   match currentBatch svc p.sourceSha with
   | none =>
